@@ -154,6 +154,15 @@ library:
     }
     printf("},");
     gettimeofday(&t1, NULL);
+    /* ---- (a2) every data source once more, in REVERSE order, after all the others have run: a source whose value depends on what another
+       source did before it (a shared buffer, a modified environment string, a moved file offset, a changed cwd) answers differently now */
+    { char *dsl2 = strdup(kv(kvs, "ds", "")); char *items[512]; int ni = 0; char *s4 = NULL; for (char *it = strtok_r(dsl2, ",", &s4); it && ni < 512; it = strtok_r(NULL, ",", &s4)) items[ni++] = it;
+      printf("\"again\":{"); int f2 = 1;
+      for (int i = ni - 1; i >= 0; i--) { char *full = unhex(items[i]); char *arg = strchr(full, ':'); if (arg) *arg++ = 0; else arg = "";
+          buf[0] = 0; errno = 0; snoopy_datasourceregistry_callByName(full, buf, bufsz, arg);
+          char key[600]; snprintf(key, sizeof key, "%s%s%s", full, *arg ? ":" : "", arg);
+          printf("%s\"", f2 ? "" : ","); f2 = 0; for (unsigned char *p = (unsigned char *)key; *p; p++) printf("%02x", *p); printf("\":"); printf("{"); jhex("v", buf); printf("}"); }
+      printf("},"); }
     /* ---- (b) facts by another route */
     unsigned ru, eu, su, rgi, egi, sgi; syscall(SYS_getresuid, &ru, &eu, &su); syscall(SYS_getresgid, &rgi, &egi, &sgi);
     printf("\"f\":{\"ruid\":%u,\"euid\":%u,\"suid\":%u,\"rgid\":%u,\"egid\":%u,\"sgid\":%u,\"pid\":%ld,\"tid_kernel\":%ld,\"tid\":%lu,", ru, eu, su, rgi, egi, sgi, syscall(SYS_getpid), syscall(SYS_gettid), (unsigned long)pthread_self());
